@@ -10,7 +10,10 @@ import (
 	"io"
 	"os"
 	"sort"
+	"strconv"
 	"strings"
+	"sync/atomic"
+	"time"
 
 	"github.com/cloudwego/gopkg/protocol/thrift"
 )
@@ -92,15 +95,44 @@ func ErrStr(err error) string {
 	return "other"
 }
 
-// Guard runs f and turns a Go panic into "PANIC <class>".
-func Guard(f func() string) (res string) {
-	defer func() {
-		if r := recover(); r != nil {
-			res = "PANIC " + PanicClass(r)
-		}
+// OpTimeout bounds one guarded operation on the real code (set from the tier by ParseOpts; VERIF_OP_TIMEOUT overrides, in
+// seconds). An operation that does not return in time is reported as "HANG" (the orchestrator turns it into a violation with
+// this op line as the replay) and its goroutine is abandoned; after MaxHangs of them the harness stops.
+var OpTimeout = 120 * time.Second
+
+const MaxHangs = 3
+
+var hangs int32
+
+// Guard runs f — on its own goroutine, so that an operation of the real code that never returns cannot take the whole
+// harness with it — and turns a Go panic into "PANIC <class>", a missing return into "HANG".
+func Guard(f func() string) string {
+	done := make(chan string, 1)
+	go func() {
+		defer func() {
+			if r := recover(); r != nil {
+				done <- "PANIC " + PanicClass(r)
+			}
+		}()
+		done <- f()
 	}()
-	return f()
+	select {
+	case res := <-done:
+		return res
+	case <-time.After(OpTimeout):
+		if atomic.AddInt32(&hangs, 1) > MaxHangs {
+			fmt.Fprintf(os.Stderr, "harness: more than %d operations did not return within %s; giving up\n", MaxHangs, OpTimeout)
+			if hangFlush != nil {
+				hangFlush()
+			}
+			os.Exit(97)
+		}
+		return "HANG"
+	}
 }
+
+// hangFlush flushes the emitter before the harness gives up (set by the emitter)
+var hangFlush func()
 
 func PanicClass(r interface{}) string {
 	s := fmt.Sprint(r)
@@ -128,7 +160,9 @@ type Emitter struct {
 }
 
 func NewEmitter() *Emitter {
-	return &Emitter{w: bufio.NewWriterSize(os.Stdout, 1<<20), Hist: map[string]int{}}
+	e := &Emitter{w: bufio.NewWriterSize(os.Stdout, 1<<20), Hist: map[string]int{}}
+	hangFlush = func() { e.w.Flush() }
+	return e
 }
 
 // Line emits "<fields...> => <impl>"
@@ -177,6 +211,12 @@ func ParseOpts() *Opts {
 	flag.StringVar(&o.Corpus, "corpus", "", "corpus file of op lines (without results) to run first")
 	flag.StringVar(&o.Replay, "replay", "", "file of op lines to re-run (only these)")
 	flag.Parse()
+	if o.Tier == "thorough" {
+		OpTimeout = 900 * time.Second
+	}
+	if v, err := strconv.Atoi(os.Getenv("VERIF_OP_TIMEOUT")); err == nil && v > 0 {
+		OpTimeout = time.Duration(v) * time.Second
+	}
 	return o
 }
 
